@@ -22,6 +22,7 @@ import (
 	"fmt"
 	"strconv"
 	"strings"
+	"unicode"
 
 	"deps.dev/util/resolve/version"
 )
@@ -72,7 +73,10 @@ func buildParsingDict(keys []version.AttrKey) map[string]version.AttrKey {
 //	Redirect name Bundle
 func ParseString(s string) (version.AttrSet, error) {
 	var attr version.AttrSet
-	items := strings.Fields(s)
+	items, err := fields(s)
+	if err != nil {
+		return version.AttrSet{}, err
+	}
 	for i := 0; i < len(items); i++ {
 		key, ok := parsingDict[strings.ToLower(items[i])]
 		if !ok {
@@ -128,10 +132,48 @@ func String(attr version.AttrSet) string {
 	for _, key := range allKeys {
 		if value, ok := attr.GetAttr(key); ok {
 			ss = append(ss, strings.ToLower(key.String()))
-			if value != "" {
-				ss = append(ss, value)
+			if flagKeys[key] {
+				continue
 			}
+			// Quote what ParseString would not read back as one
+			// field: nothing, white space, or a leading quote.
+			if value == "" || value[0] == '"' || strings.IndexFunc(value, unicode.IsSpace) >= 0 {
+				value = strconv.Quote(value)
+			}
+			ss = append(ss, value)
 		}
 	}
 	return strings.Join(ss, " ")
+}
+
+// fields splits s around white space like strings.Fields, except that a field
+// that starts with a double quote is a Go string literal: it extends to its
+// closing quote, whatever it contains, and is returned unquoted.
+func fields(s string) ([]string, error) {
+	var items []string
+	for {
+		s = strings.TrimLeftFunc(s, unicode.IsSpace)
+		if s == "" {
+			return items, nil
+		}
+		if s[0] == '"' {
+			q, err := strconv.QuotedPrefix(s)
+			if err != nil {
+				return nil, fmt.Errorf("unterminated quotes in %s", s)
+			}
+			uq, err := strconv.Unquote(q)
+			if err != nil {
+				return nil, err
+			}
+			items = append(items, uq)
+			s = s[len(q):]
+			continue
+		}
+		i := strings.IndexFunc(s, unicode.IsSpace)
+		if i < 0 {
+			i = len(s)
+		}
+		items = append(items, s[:i])
+		s = s[i:]
+	}
 }
